@@ -30,6 +30,7 @@ type Engine struct {
 	Trusted   []string // ;;@trusted lines of the prelude
 	Tables    *Tables
 	RecDefs   map[string]*recDef
+	Active    map[string]*Contract
 }
 
 func loadEngine(repo, verif string) (*Engine, error) {
